@@ -156,6 +156,9 @@ def templates(tier):
                 out.append(dict(base, template="timed_window+buffer", n=1, timers=True))
                 out.append(dict(base, template="map_async+partition-timeout", n=2, timers=True,
                                 out_of_order=True))
+    for tname, kw in (("buffer", {"n": 1}), ("timed_window", {"timers": True}), ("partition-timeout", {"n": 2, "timers": True}),
+                      ("map_async", {"n": 1}), ("delay", {"timers": True}), ("rate_limit", {"timers": True})):
+        out.append(dict({"native": False, "awaiting": False, "items": 3, "nmd": 1, "fine": True}, template=tname, **kw))
     return out
 
 
@@ -171,6 +174,8 @@ def obligations(tier):
             nm += "/slow-sink"
         if sh.get("fail"):
             nm += "/failing-job"
+        if sh.get("fine"):
+            nm += "/fine"
         obls.append({"name": nm, "body": "body", "pre": "pre", "shard": sh,
                      "types": ["int"] * steps, "budget": 400 if q else 2400})
     return obls
